@@ -6,6 +6,10 @@ IDENT_PLAIN = "abcdefghijklmnopqrstuvwxyzABCDEFGHIJKLMNOPQRSTUVWXYZ-_"
 IDENT_HOSTILE = list("'\\[]()>|=!^.:#0123456789*é中") + ["\n", "\r", "\t", "\U0001f600", "=>", "^="]
 STRING_HOSTILE = list("'\\[]()>|=!^.:# \"<&;") + ["\n", "\r", "\t", " ", " ", "\U0001f600", "=>", "é"]
 STRING_HOSTILE.append("data:;base64,")
+# sequences that a line pre-processor, a formatter or an escape decoder working on the raw text (before / after the
+# tokeniser) would trip over: white space + '#', braces and percent signs, a backslash before n / r / t, doubled backslashes
+STRING_HOSTILE += [" #", " # ", "\t#x", "#", "{", "}", "{0}", "{x}", "%s", "%20", "\\n", "\\t", "\\r", "\\\\", " \\"]
+IDENT_HOSTILE += ["#", "{", "}", "{0}", "%", "\\n", "\\t", "\\\\", " #"]
 WS = " \t\r\x0b\x0c\x1c\x1d\x1e\x1f\x85\xa0                　"
 
 
